@@ -1,0 +1,51 @@
+//go:build verif
+
+package graphql
+
+import (
+	"github.com/graphql-go/graphql/language/ast"
+)
+
+// This file is compiled only with the build tag `verif`. It adds nothing to
+// the library's behaviour: it exposes package-private state of the plan cache
+// to the verification harness through thin wrappers.
+
+// VerifNormalizeDocument is normalizeDocument.
+func VerifNormalizeDocument(schema *Schema, doc *ast.Document, operationName string) (*ast.Document, map[string]interface{}, string, error) {
+	return normalizeDocument(schema, doc, operationName)
+}
+
+// VerifCacheEntry is one retained entry of a PlanCache.
+type VerifCacheEntry struct {
+	Key    string
+	Schema *Schema
+	Result PlanResult
+}
+
+// VerifPlanCacheEntries lists the retained entries, most recently used first,
+// together with the size of the lookup map.
+func VerifPlanCacheEntries(c *PlanCache) (entries []VerifCacheEntry, mapLen int) {
+	if c == nil {
+		return nil, 0
+	}
+	c.mu.Lock()
+	defer c.mu.Unlock()
+	for el := c.order.Front(); el != nil; el = el.Next() {
+		it := el.Value.(*planCacheItem)
+		entries = append(entries, VerifCacheEntry{Key: it.key, Schema: it.e.schema, Result: it.e.result})
+	}
+	return entries, len(c.entries)
+}
+
+// VerifPlanCacheDefaults returns the defaults applied to zero options.
+func VerifPlanCacheDefaults() (maxEntries, maxQueryBytes int) {
+	return defaultPlanCacheMaxEntries, defaultPlanCacheMaxQueryBytes
+}
+
+// VerifPlanCacheOptions returns the options in effect.
+func VerifPlanCacheOptions(c *PlanCache) PlanCacheOptions {
+	if c == nil {
+		return PlanCacheOptions{}
+	}
+	return c.opts
+}
